@@ -232,7 +232,7 @@ def units(tier, seed=0):
     # ... and with this instance's MPU enabled (one symbolic region), where the memory architecture decides every access
     for u in famcheck.family_units({ISA['LdrImmediateArmA1'].family}, [7], T, only=['LdrImmediateArmA1'],
                                    tag='/isolation/after-foreign-stepped/mpu', foreign_before=dict(arch=7, vmsa=True),
-                                   mpu=1, mpu_rsize=[4]):
+                                   mpu=1, mpu_rsize=[4], fix={'P': 1, 'U': 1, 'W': 0}):
         u.max_seconds = 3000
         us.append(u)
     return us
